@@ -72,6 +72,8 @@ ERROR_CLASSES = [
     ('constructor-name', r'is a constructor name|cannot refer to type member|invalid use of (?!incomplete)|'
                          r'names the constructor|cannot convert .* in return|no viable conversion from returned value'),
     ('function-hides-type', r'redefinition of .* as different kind of symbol|conflicting declaration of template|'
+                            r'must use .class. tag to refer to type|'
+                            r'redeclared as different kind of entity|'
                             r'does not name a type|no type named|must be a type|type/value mismatch'),
     ('no-matching-function', r'no matching function for call'),
     ('undeclared', r'is not a member of|no member named|was not declared|undeclared identifier|has not been declared'),
@@ -86,7 +88,7 @@ EXPLAINS = {
     'captured-by-template-scope': {'parameter-pack', 'own-initializer', 'not-callable'},
     'class-hides-inherited-member': {'constructor-name', 'no-matching-function', 'undeclared'},
     'type-hidden-by-template-parameter': {'no-matching-function'},
-    'type-hidden-by-function': {'function-hides-type', 'undeclared', 'no-matching-function'},
+    'type-hidden-by-function': {'function-hides-type', 'undeclared', 'no-matching-function', 'broken-literal'},
     'hides-namespace-std': {'std-hidden', 'parameter-pack', 'undeclared', 'broken-literal', 'function-hides-type'},
     'macro-name': {'macro', 'broken-literal', 'undeclared', 'function-hides-type', 'constructor-name', 'other'},
     'duplicate-parameter-name': {'duplicate-parameter'},
